@@ -13,21 +13,22 @@ pid = sys.argv[2]
 tier = sys.argv[4] if len(sys.argv) > 4 else "quick"
 patch = d / "patch.diff"
 import fcntl, os
+REPO = os.environ.get("VERIF_REPO", "/repo")
 (V / ".scratch").mkdir(exist_ok=True)
 _lock = open(V / ".scratch" / "repo.lock", "w")
 fcntl.flock(_lock, fcntl.LOCK_EX)  # running checks hold it shared: wait for them, block new ones while /repo is modified
-assert subprocess.run(["git", "-C", "/repo", "status", "--porcelain", "--untracked-files=no"], capture_output=True, text=True).stdout.strip() == "", "/repo is dirty"
-r = subprocess.run(["git", "-C", "/repo", "apply", "--whitespace=nowarn", str(patch)], capture_output=True, text=True)
+assert subprocess.run(["git", "-C", REPO, "status", "--porcelain", "--untracked-files=no"], capture_output=True, text=True).stdout.strip() == "", "/repo is dirty"
+r = subprocess.run(["git", "-C", REPO, "apply", "--whitespace=nowarn", str(patch)], capture_output=True, text=True)
 if r.returncode:
-    r = subprocess.run(["git", "-C", "/repo", "apply", "--3way", "--whitespace=nowarn", str(patch)], capture_output=True, text=True)
+    r = subprocess.run(["git", "-C", REPO, "apply", "--3way", "--whitespace=nowarn", str(patch)], capture_output=True, text=True)
     if r.returncode:
         print("APPLY-FAILED", r.stderr[:300]); sys.exit(2)
 res = {"dir": str(d), "property": pid}
 try:
     pyx = ".pyx" in patch.read_text()
     if (d / "demo.py").exists():
-        q = subprocess.run(["/venv/bin/python", str(d / "demo.py")], capture_output=True, text=True, cwd="/repo",
-                           env={"PYTHONPATH": "/repo/src", "PATH": "/usr/bin:/bin", "EZDXF_DISABLE_C_EXT": "1"} if not pyx else None, timeout=600)
+        q = subprocess.run(["/venv/bin/python", str(d / "demo.py")], capture_output=True, text=True, cwd=REPO,
+                           env={"PYTHONPATH": REPO + "/src", "PATH": "/usr/bin:/bin", "EZDXF_DISABLE_C_EXT": "1"} if not pyx else dict(os.environ, PYTHONPATH=REPO + "/src"), timeout=600)
         res["demo_exit_with_change"] = q.returncode
     t = time.time()
     c = subprocess.run(["./check", pid, "--tier", tier], cwd=V, capture_output=True, text=True, timeout=3600,
@@ -37,6 +38,6 @@ try:
     lines = [l for l in c.stdout.splitlines() if l.startswith("VIOLATION") or l.startswith("  failing input") or l.startswith("  broken")]
     res["report"] = lines[:6]
 finally:
-    subprocess.run(["git", "-C", "/repo", "apply", "-R", "--whitespace=nowarn", str(patch)], capture_output=True)
-    subprocess.run(["git", "-C", "/repo", "checkout", "--", "."], check=True)
+    subprocess.run(["git", "-C", REPO, "apply", "-R", "--whitespace=nowarn", str(patch)], capture_output=True)
+    subprocess.run(["git", "-C", REPO, "checkout", "--", "."], check=True)
 print(json.dumps(res, indent=1))
